@@ -132,6 +132,25 @@ def checkWmcLine (kvs : List (String × String)) (rhs : String) : String := Id.r
   if lookup okv "cxn" != some (showCx specCxN) then
     return s!"FAIL SPEC complex count of the negation {lookup okv "cxn"}, brute-force sum over models {showCx specCxN}"
   if showCx (Bdd.wmc Sem.cxOps wcW d) != showCx specCx then return "FAIL MODEL complex count"
+  -- polynomial weights (1 - x^d, x^d) over the reals, truncated at MAX_COEFFS
+  let M := Constants.maxCoeffs
+  let wpd := ((lookup kvs "wpd").bind parseNatList).getD []
+  let PS := Sem.polyOps Sem.realOps M
+  let mono (dg : Nat) : Sem.Poly Rat := Sem.polyOfList Sem.realOps M ((List.replicate dg (0 : Rat)) ++ [1])
+  let oneMinus (dg : Nat) : Sem.Poly Rat :=
+    Sem.polyOfList Sem.realOps M (if dg == 0 then [0] else [(1 : Rat)] ++ List.replicate (dg - 1) 0 ++ [-1])
+  let wpW : Weights (Sem.Poly Rat) := fun v => let dg := wpd.getD v 0; (oneMinus dg, mono dg)
+  -- compare coefficient lists up to the longer reported length (the `len` field is bookkeeping)
+  let coeffsOf (s : String) : Option (List Rat) :=
+    match s.splitOn ":" with
+    | [_, body] => if body.isEmpty then some [] else (body.splitOn ";").mapM parseRat?
+    | _ => none
+  let padTo (k : Nat) (l : List Rat) : List Rat := l ++ List.replicate (k - l.length) 0
+  for (key, f) in [("cp", d.eval), ("cpn", fun a => !d.eval a)] do
+    let want := (wsum PS vars wpW f a0).coeffs
+    let some got := (lookup okv key).bind coeffsOf | return s!"FAIL PARSE {key}"
+    if padTo M got != padTo M want then
+      return s!"FAIL SPEC polynomial count {key} = {got.map showRat}, brute-force sum over models (truncated at {M} coefficients) {(want.map showRat)}"
   -- node count
   let some nodes := (lookup okv "nodes").bind parseNat? | return "FAIL PARSE nodes"
   if nodes != (nodesOf d []).length then return s!"FAIL SPEC count_nodes {nodes}, distinct nodes {(nodesOf d []).length}"
